@@ -14,7 +14,7 @@ tc = None
 if "--toolchain" in sys.argv:
     tc = sys.argv[sys.argv.index("--toolchain") + 1]
 wt = "/tmp/confirm-" + sid
-env = dict(os.environ, CARGO_NET_OFFLINE="true", RUST_BACKTRACE="0", CARGO_TARGET_DIR="/tmp/confirm-target")
+env = dict(os.environ, CARGO_NET_OFFLINE="true", RUST_BACKTRACE="0", CARGO_TARGET_DIR=os.environ.get("CONFIRM_TARGET", "/tmp/confirm-target"))
 def run(cmd, cwd=wt):
     p = subprocess.run(cmd, cwd=cwd, env=env, stdout=subprocess.PIPE, stderr=subprocess.STDOUT, text=True)
     return p.returncode, p.stdout
@@ -37,7 +37,7 @@ try:
         # the demonstration needs the interpreter (undefined behaviour that does not crash natively)
         cmd = ["cargo", "+nightly", "miri", "test", "--offline"] + (["--release"] if "--release" in sys.argv else []) + ["--test", demo]
         env["MIRIFLAGS"] = "-Zmiri-disable-isolation"
-        env["CARGO_TARGET_DIR"] = "/tmp/confirm-target-miri"
+        env["CARGO_TARGET_DIR"] = os.environ.get("CONFIRM_TARGET", "/tmp/confirm-target") + "-miri"
     if feats:
         cmd += ["--features", feats]
     if "--no-default-features" in sys.argv:
@@ -45,7 +45,7 @@ try:
     if "--rustflags" in sys.argv:
         # the demonstration needs target features (the suite above ran with the default ones)
         env["RUSTFLAGS"] = sys.argv[sys.argv.index("--rustflags") + 1]
-        env["CARGO_TARGET_DIR"] = "/tmp/confirm-target-flags"
+        env["CARGO_TARGET_DIR"] = os.environ.get("CONFIRM_TARGET", "/tmp/confirm-target") + "-flags"
     rc, o = run(cmd)
     res["demo_with_change_exit"] = rc
     res["demo_with_change_tail"] = [l for l in o.splitlines() if l.startswith("test ") or "panicked" in l][-6:]
